@@ -30,6 +30,22 @@ def sx_trunc(v):
     return SNum(z3.If(e >= 0, fl, -nfl))
 
 
+def _is_int_term(e):
+    """syntactic check: a real term built from to_real(int terms), integer numerals, + - *"""
+    e = z3.simplify(e)
+    if z3.is_int(e):
+        return True
+    if z3.is_rational_value(e):
+        return e.denominator_as_long() == 1
+    if z3.is_app(e):
+        k = e.decl().kind()
+        if k == z3.Z3_OP_TO_REAL:
+            return True
+        if k in (z3.Z3_OP_ADD, z3.Z3_OP_SUB, z3.Z3_OP_MUL, z3.Z3_OP_UMINUS):
+            return all(_is_int_term(c) for c in e.children())
+    return False
+
+
 def cast_scalar(v, name):
     if name is None:
         return v
@@ -37,6 +53,10 @@ def cast_scalar(v, name):
         real = {"f32": _np.float32, "i16": _np.int16, "i8": _np.int8, "i64": _np.int64, "i32": _np.int32}.get(name)
         return real(v).item() if real is not None else v
     if name in ("i64", "i32", "int"):
+        if isinstance(v, SNum) and z3.is_int(v.e):
+            return v                              # already an integer (symbolic box sizes, centres, indices)
+        if isinstance(v, SNum) and _is_int_term(v.e):
+            return SNum(z3.simplify(z3.ToInt(v.e)))   # integer-valued real term (e.g. int + 1.0): stays symbolic
         return core.concretize(sx_trunc(v))      # integer results are used as indices: fork over the feasible values
     f = core.ufun(name, 1)
     e = zreal(v)
@@ -52,6 +72,8 @@ def astype(x, t):
     for idx in _np.ndindex(*xa.shape):
         out[idx] = cast_scalar(xa[idx], name)
     if name in ("i64", "i32", "int"):
+        if any(core.is_sym(v) for v in out.flat):
+            return out
         return out.astype(_np.int64)
     from . import fs
     full = {"f32": "float32", "i16": "int16", "i8": "int8"}.get(name)
